@@ -725,6 +725,7 @@ impl Model for CliModel {
                 detail,
                 derivation: format!("tree of {} entries", tree.len()),
                 extra: json!({"tree": tree_json(tree), "argv": inv.argv(Path::new("<root>")), "stdin": if let Mode::Stdin(b, _) = &inv.mode { Some(String::from_utf8_lossy(b).to_string()) } else { None }}),
+                count: 1,
             });
         }
         // the observed tree is the next state (entries created by the tool would show up here too)
@@ -1067,7 +1068,7 @@ pub fn run_c16(tier: &str, seed: u64) -> i32 {
     let samples: Mutex<Vec<Value>> = Mutex::new(vec![]);
     let threads = std::thread::available_parallelism().map(|n| n.get()).unwrap_or(8);
     let fail = |clause: &str, sig: String, detail: String, extra: Value| {
-        failures.lock().unwrap().push(Failure { property: "C16".into(), clause: clause.into(), signature: format!("C16|{clause}|{sig}"), input: String::new(), cfg: None, detail, derivation: sig.clone(), extra });
+        failures.lock().unwrap().push(Failure { property: "C16".into(), clause: clause.into(), signature: format!("C16|{clause}|{sig}"), input: String::new(), cfg: None, detail, derivation: sig.clone(), extra, count: 1 });
     };
     std::thread::scope(|sc| {
         for _ in 0..threads {
